@@ -23,6 +23,7 @@ THEOREMS = [
     "PV.C03.C03_interleave",
     "PV.C03.movBlocks_get",
     "PV.C03.C03_assembled",
+    "PV.C03.C03_identify",
     "PV.Multi.roving_cover",
     "PV.Multi.flatMap_blocks_get",
     "PV.C01.C01_realisation_fast",
